@@ -603,8 +603,16 @@ def dict_resolver(env):
 
             try:
                 co = codefind.find_code(*hierarchy, module=module or "__main__")
-            except (KeyError, ImportError, TypeError):
+            except (
+                KeyError,
+                ImportError,
+                TypeError,
+                AttributeError,
+                AssertionError,
+            ):
                 # TypeError: the module part is a relative name such as "."
+                # AttributeError, AssertionError: the module has no source
+                # file (built-in module, namespace package)
                 raise CodeNotFoundError(
                     f"Cannot find a function for the reference '{x}'."
                     " Try calling `ptera.refstring` on the function you want"
